@@ -449,7 +449,7 @@ package memefish
 // @   ensures !noPanic ==> l.Token.Kind != "<bad>"
 // @   ensures[C12,C14] punct1: len(l.Token.Kind) == 1 ==> l.Token.End == l.Token.Pos + 1 && l.Buffer[l.Token.Pos] == l.Token.Kind[0]
 // @   ensures[C10,C14] shr: l.Token.Kind == ">>" ==> l.Token.End == l.Token.Pos + 2
-// @   ensures[C06] trivstart: l.Token.Kind != "<bad>" ==> trivStart(l) == old(l.pos)
+// @   ensures[C05,C06] trivstart: l.Token.Kind != "<bad>" ==> trivStart(l) == old(l.pos)
 // @   ensures trivrange: old(l.pos) <= trivStart(l) && trivStart(l) <= l.Token.Pos
 // @   ensures[C10] gap: (len(l.Token.Space) > 0 || len(l.Token.Comments) > 0) == (l.Token.Pos > old(l.pos))
 // @   ensures l.Token.Kind != ""
